@@ -4,6 +4,6 @@ import Qryn.Base.Time
     `FormatFromDate(ctx.From)` and `ctx.To.UTC().Format("2006-01-02")`. -/
 namespace Qryn.Prof
 /-- the Pyroscope selector query for a window (tied to the real planner's text by the `model-prof` stream of C13) -/
-def profSelector (table : String) (fromNs toNs : Int) (sels : List Selector) : Option PQuery :=
-  plan table (Time.formatFromDate fromNs) (Time.formatDate (Int.fdiv toNs 1000000000)) sels
+def profSelector (gre : Bytes → Bytes → Bool) (table : String) (fromNs toNs : Int) (sels : List Selector) : Option PQuery :=
+  plan gre table (Time.formatFromDate fromNs) (Time.formatDate (Int.fdiv toNs 1000000000)) sels
 end Qryn.Prof
